@@ -11,7 +11,7 @@ pub struct C12;
 
 /// Small-capacity geometries: a refcount block covers 32 KiB .. 1 MiB of host file and one
 /// refcount-table cluster 64..256 refcount blocks, so modest histories cross both limits.
-fn growth_profile() -> Profile {
+pub fn growth_profile() -> Profile {
     Profile {
         max_ops: 40,
         op_weights: [70, 4, 8, 8, 1, 3, 6],
@@ -174,6 +174,19 @@ fn enlarge(c: &mut SeqCase, raw: &RawCase, max_bs_bits: u8, excl: &Exclusions) {
             _ => {}
         }
     }
+}
+
+/// `enlarge` with both growth known findings treated as active whatever the registry says (for
+/// other properties that borrow this domain: the findings are C12's, the shapes are removed)
+pub fn enlarge_within_initial_tables(c: &mut SeqCase, raw: &RawCase, max_bs_bits: u8) {
+    let mk = |id: &str| -> Finding {
+        serde_json::from_value(serde_json::json!({"id": id, "property": "C12", "status": "known", "what": ""})).unwrap()
+    };
+    let excl = Exclusions {
+        active: vec![mk(K_REFTABLE_GROWTH), mk(K_L1_GROWTH)],
+        ..Exclusions::default()
+    };
+    enlarge(c, raw, max_bs_bits, &excl);
 }
 
 fn enlarge_crash(c: &mut SeqCase, raw: &RawCase, _m: u8, excl: &Exclusions) {
